@@ -63,16 +63,17 @@ pub fn judge(c: &Case, r: &RunReport, st: &mut Stats) {
 }
 
 fn declared_ranges<T: State>(s: &T, group: &str) -> Vec<(f64, f64)> {
-    // from the property statement, evaluated at the stage start
+    // from the property statement, evaluated at the stage start; returned in basis order
     let v = libx::basis_values(s);
-    let mut out = vec![(0.01, v[0]), (0.1, v[1])];
+    let layout = libx::basis_layout(group).unwrap_or_else(|_| (0..v.len()).collect());
+    let mut out = vec![(0.01, v[layout[0]]), (0.1, v[layout[1]])];
     if libx::is_oblique(group) {
         out.push((PI / 6., PI / 2.));
     }
     out.push((-0.5, 0.5));
     out.push((-0.5, 0.5));
     out.push((0., 2. * PI));
-    out
+    libx::to_basis_order(group, &out).unwrap_or(out)
 }
 
 pub fn check(c: &Case, st: &mut Stats) {
